@@ -42,12 +42,33 @@ type Node struct {
 	Kind    Kind        //
 	Content string      // regular files
 	Mode    fs.FileMode // permission bits as given by the newest entry (0 for implicit dirs)
-	Target  string      // symlinks: link name as written in the tar
+	// Special holds the setuid / setgid / sticky flags (fs.ModeSetuid | fs.ModeSetgid |
+	// fs.ModeSticky) of the newest entry's header mode (04000 / 02000 / 01000 in the tar); 0 for
+	// plain permission modes and for implicit directories.
+	Special fs.FileMode
+	Target  string // symlinks: link name as written in the tar
 	// Implicit is true for a directory that exists only because some entry lies beneath it
 	// (no layer so far carried an entry for the directory itself): only its kind is defined.
 	Implicit bool
 	// Layer is the index of the layer that last wrote the node (-1 for the root).
 	Layer int
+}
+
+// ModeBits returns what the newest entry says about the node's mode apart from its type:
+// permission bits plus setuid / setgid / sticky flags.
+func (n *Node) ModeBits() fs.FileMode { return n.Mode.Perm() | n.Special }
+
+// FileMode returns the complete fs.FileMode a stat of the node has to report: ModeBits plus
+// the type bit of the node's kind (meaningful for explicit entries only: an implicit
+// directory has no defined mode beyond its kind).
+func (n *Node) FileMode() fs.FileMode {
+	switch n.Kind {
+	case Dir:
+		return n.ModeBits() | fs.ModeDir
+	case Symlink:
+		return n.ModeBits() | fs.ModeSymlink
+	}
+	return n.ModeBits()
 }
 
 // Size is the size a stat of the node has to report (regular files only).
@@ -248,7 +269,7 @@ func Apply(lower View, l tarimg.Layer, layerIdx int) View {
 			continue
 		}
 		ensureParents(pe.p)
-		n := &Node{Path: pe.p, Mode: fs.FileMode(e.Mode) & fs.ModePerm, Layer: layerIdx}
+		n := &Node{Path: pe.p, Mode: fs.FileMode(e.Mode) & fs.ModePerm, Special: tarimg.SpecialBits(e.Mode), Layer: layerIdx}
 		switch e.Kind {
 		case tarimg.KindDir:
 			n.Kind = Dir
@@ -275,7 +296,7 @@ func Apply(lower View, l tarimg.Layer, layerIdx int) View {
 		}
 		ensureParents(pe.p)
 		out.removeSubtree(pe.p)
-		out[pe.p] = &Node{Path: pe.p, Kind: File, Content: tn.Content, Mode: tn.Mode, Layer: layerIdx}
+		out[pe.p] = &Node{Path: pe.p, Kind: File, Content: tn.Content, Mode: tn.Mode, Special: tn.Special, Layer: layerIdx}
 	}
 	return out
 }
